@@ -85,7 +85,7 @@ func streamWL(x *mon.Ctx) {
 	selftest(x)
 	bf := newBufs(4096)
 	defer bf.free()
-	reps := x.Scale(1, 16)
+	reps := x.Scale(1, 32)
 	if raceBuild(x) {
 		reps = x.Scale(1, 3)
 	}
